@@ -229,7 +229,7 @@ theorem failAll_clean (rest : List Action) (c : CS) (a : Action) (o : Oracle) (o
     · simp only [List.mem_map] at hx
       obtain ⟨b, _, rfl⟩ := hx
       exact ⟨_, _, rfl⟩
-  have hr := reconnectDev_devFrame { c with dev := { c.dev with acts := [] } } tmo
+  have hr := reconnectDev_devFrame { c with dev := { c.dev with acts := [], xmStr := none, xmResult := false, xmUsed := false } } tmo
   unfold failAll
   dsimp only
   split
@@ -274,7 +274,7 @@ theorem onRun_clean (k : CS → Oracle → List Out → Option Time → PA)
     · exact ⟨hplugs, hout.append hIL⟩
     · split
       · split
-        · have := hk { c with dev := { r.dev with acts := rest, loggedIn := r.dev.loggedIn || (advance r.act).com == 0, statActions := r.dev.statActions + 1 } }
+        · have := hk { c with dev := { r.dev with acts := rest, loggedIn := r.dev.loggedIn || (advance r.act).com == 0, statActions := r.dev.statActions + 1, xmStr := none, xmResult := false, xmUsed := false } }
             r.oracle ((out ++ r.out) ++ (if (advance r.act).clientId != 0 then [Out.finish (advance r.act).clientId .success] else [])) tmo
             hplugs ((hout.append hIL).append (by
               apply finish_outs
